@@ -259,7 +259,7 @@ def playback(ws, spec, timeout=900):
             f.write(orig)
 
 
-def check_property(res, ws_name, fragments, specs, jobs=None, default_timeout=None):
+def check_property(res, ws_name, fragments, specs, jobs=None, default_timeout=None, into=None):
     """Runs the specs selected for the tier; fills res.coverage (proof-level keys)."""
     import time
     tier = C.tier()
@@ -334,7 +334,7 @@ def check_property(res, ws_name, fragments, specs, jobs=None, default_timeout=No
                     res.inconc(f'{s.name}: {r.status} ({r.raw[-300:].strip()})')
             discharged += ok
             obligations.append(entry)
-    cov = res.coverage
+    cov = res.coverage if into is None else res.coverage.setdefault(into, {})
     known = [o for o in obligations if o.get('decided_as') == 'known finding']
     cov['obligations'] = len(sel) - len(known)   # obligations refuted by a listed known finding are reported separately
     cov['discharged'] = discharged
